@@ -207,6 +207,38 @@ def generate():
     items.append(_str_def("src_futex_wake_all", _norm(function_body(sched, fx + r"wake_all\s*\("))))
     items.append(_str_def("src_push", _norm(last(Qn + r"push\s*\(\s*C\s*&&"))))
     items.append(_str_def("src_pop", _norm(last(Qn + r"pop\s*\(\s*C\s*&&"))))
+    # orders of the batch paths as named constants, located by their position between the notable calls of
+    # deal_n_continuously; a fence that is no longer there is emitted as `.rlx` (a relaxed fence is a no-op) so that
+    # dropping it reaches the view-model theorems (bq_wake_view, bq_publication_batch) instead of raising here
+    def fence_between(name, sites, after, before):
+        i = next((k for k, x in enumerate(sites) if x == '.call "%s"' % after), None)
+        j = next((k for k, x in enumerate(sites) if k > (i if i is not None else -1) and x == '.call "%s"' % before), None)
+        if i is None or j is None:
+            raise ExtractError("%s: calls %s / %s not found" % (name, after, before))
+        f = [x for x in sites[i + 1:j] if x.startswith(".fence")]
+        if len(f) > 1:
+            raise ExtractError("%s: more than one fence between %s and %s" % (name, after, before))
+        items.append("def %s : Ord := %s" % (name, f[0].split()[-1] if f else ".rlx"))
+    for pre, body in (("ordBatch", function_body(txt, Qn + r"deal_n_continuously\s*\(", 0)), ("ordTryBatch", fn(Qn + r"try_deal_n_continuously\s*\("))):
+        sites = skeleton(body, tail)
+        first = "wait_until_reach_expected_version" if pre == "ordBatch" else "version"
+        fence_between(pre + "AcqFence", sites, first, "callback")
+        fence_between(pre + "RelFence", sites, "callback", "set_version")
+        fence_between(pre + "ScFence", sites, "set_version", "wakeup_waiters")
+        b = strip_comments(body)
+        m = re.search(r"(?:wait_until_reach_expected_version<[^>]*>\s*\([^;]*?|version\s*\(\s*::std::)memory_order_(\w+)", b, flags=re.S)
+        if not m:
+            raise ExtractError(pre + ": version load order not found")
+        items.append("def %sLoad : Ord := .%s" % (pre, ORD[m.group(1)]))
+        m = re.search(r"set_version\s*\([^;]*?memory_order_(\w+)", b, flags=re.S)
+        if not m:
+            raise ExtractError(pre + ": version store order not found")
+        items.append("def %sStore : Ord := .%s" % (pre, ORD[m.group(1)]))
+    ww = skeleton(fn(SF + r"\s*wakeup_waiters\s*\("), [r"wake_all"])
+    lw = [x for x in ww if x.startswith(".load")]
+    if len(lw) != 1:
+        raise ExtractError("wakeup_waiters: waiter-word load not found")
+    items.append("def ordWakeLoad : Ord := %s" % lw[0].split()[-1])
     # template flags at the internal call sites of the default (flag-less) overloads and of clear()
     defaults = {}
     for name in ("push", "try_push", "push_n", "pop", "try_pop", "pop_n"):
